@@ -119,16 +119,22 @@ func (sel *Selection) makeCopy() (*Selection, error) {
 }
 
 func (sel *Selection) selekt(r *ChildRequest) (*Selection, error) {
+	child, _, err := sel.selektOrHidden(r)
+	return child, err
+}
+
+// selektOrHidden is selekt that also tells when the node is there but a constraint checked
+// on the node itself (a 'when' that does not hold) keeps it out of reach
+func (sel *Selection) selektOrHidden(r *ChildRequest) (child *Selection, hidden bool, err error) {
 	// check pre-constraints
 	if proceed, constraintErr := sel.Constraints.CheckContainerPreConstraints(r); !proceed || constraintErr != nil {
-		return nil, constraintErr
+		return nil, false, constraintErr
 	}
 
 	// select node
-	var child *Selection
 	childNode, err := sel.Node.Child(*r)
 	if err != nil || childNode == nil {
-		return nil, err
+		return nil, false, err
 	}
 	child = &Selection{
 		Browser:     sel.Browser,
@@ -143,10 +149,10 @@ func (sel *Selection) selekt(r *ChildRequest) (*Selection, error) {
 
 	// check post-constraints
 	if proceed, constraintErr := sel.Constraints.CheckContainerPostConstraints(*r, child); !proceed || constraintErr != nil {
-		return nil, constraintErr
+		return nil, constraintErr == nil, constraintErr
 	}
 
-	return child, nil
+	return child, false, nil
 }
 
 type ListItem struct {
